@@ -158,7 +158,7 @@ def run_case(case):
         b_idx = case.get('b_idx') or list(range(len(rates)))
         pairs = [(rates[i], rates[j]) for i in a_idx for j in b_idx if i <= j]
         catalogs = [list(c) for c in space.multisets(list(range(n)), case.get('min_events', 2), case['max_events'])]
-        variants = [(0.05, False)] if case['variants'] == 'main' else [(0.01, False), (0.5, False), (0.05, True), (0.01, True), (0.05, 'rescaled'), (0.05, 'rescaled-scaled'), (0.05, 'catalog-changed')]
+        variants = [(0.05, False)] if case['variants'] == 'main' else [(0.01, False), (0.5, False), (0.05, True), (0.01, True), (0.05, 'rescaled'), (0.05, 'rescaled-scaled'), (0.05, 'catalog-changed'), (0.05, 'array-scaled'), (0.05, 'int-rates')]
     def fc_of(r, name):
         # a FRESH forecast object per state: the calls of one state (T(A,B), T(B,A), binary T both orders, W both orders)
         # form an explicit history on the same two objects, so a call that corrupts a forecast is seen by the next one,
@@ -193,6 +193,22 @@ def run_case(case):
                                 pass
                         cat_bins = sorted(cat_bins)[:-1]
                         the_cat.catalog = mk(cat_bins).catalog
+                    if scale == 'array-scaled':
+                        # the forecasts reach their rates through scale(<ndarray>): one factor per magnitude bin (A), per cell (B)
+                        scale = False
+                        am = numpy.array([[2.0, 0.5][m % 2] for m in range(nm)]).reshape(1, nm)
+                        ac = numpy.array([[4.0, 0.25, 1.0, 2.0][c % 4] for c in range(nc)]).reshape(nc, 1)
+                        fa = fc_of((numpy.array(ra).reshape(nc, nm) / am).ravel().tolist(), 'A')
+                        fa.scale(am)
+                        fb = fc_of((numpy.array(rb).reshape(nc, nm) / ac).ravel().tolist(), 'B')
+                        fb.scale(ac)
+                    if scale == 'int-rates':
+                        # rates stored as INTEGER arrays (four times the alphabet: 1, 4, 16), daily rates requested
+                        from csep.core.forecasts import GriddedForecast
+                        scale = True
+                        ra, rb = [x * 4 for x in ra], [x * 4 for x in rb]
+                        mk_i = lambda r_, nme: GriddedForecast(start_time=T0, end_time=T1, data=numpy.array(r_, dtype=numpy.int64).reshape(nc, nm), region=reg, magnitudes=numpy.array(mags), name=nme)
+                        fa, fb = mk_i(ra, 'A'), mk_i(rb, 'B')
                     rescaled = scale in ('rescaled', 'rescaled-scaled')
                     if rescaled:
                         # history: both forecasts are used once (their totals are read), then rescaled by 1/2, then used again
